@@ -147,6 +147,31 @@ var c13Ext = []uint16{5, 13, 16, 18, 23, 35, 21, 0xff01, 13172, 0x1234, 0x002b, 
 var c13Curves = []uint16{29, 23, 24, 25, 256, 257, 0x6399}
 var c13Names = []string{"", "a.example", "b.example.org"}
 
+// nearGrease: code points that look like GREASE (0x?a?a) but are not - both bytes must be equal for GREASE - and
+// arbitrary unassigned code points.  They are ordinary values for JA3.
+func nearGrease(r *Rng) uint16 {
+	for {
+		var v uint16
+		switch r.Intn(3) {
+		case 0:
+			v = uint16(r.Intn(16))<<12 | 0x0a00 | uint16(r.Intn(16))<<4 | 0x0a // 0xXaYa
+		case 1:
+			v = greaseVals[r.Intn(16)] ^ []uint16{0x0001, 0x0100, 0x0010, 0x1000, 0x0101}[r.Intn(5)]
+		default:
+			v = uint16(0x4000 + r.Intn(0xbf00)) // unassigned, away from the types the TLS stack interprets
+		}
+		isG := false
+		for _, g := range greaseVals {
+			if g == v {
+				isG = true
+			}
+		}
+		if !isG && v != 0xff01 && v != 13172 && v > 64 {
+			return v
+		}
+	}
+}
+
 func genHello(r *Rng) helloSpec {
 	h := helloSpec{Version: []uint16{0x0301, 0x0302, 0x0303, 0x0303, 0x0303}[r.Intn(5)]}
 	if r.Chance(0.02) {
@@ -159,6 +184,8 @@ func genHello(r *Rng) helloSpec {
 	for i := 0; i < ns; i++ {
 		if r.Chance(0.12) {
 			h.Suites = append(h.Suites, greaseVals[r.Intn(16)])
+		} else if r.Chance(0.08) {
+			h.Suites = append(h.Suites, nearGrease(r))
 		} else {
 			h.Suites = append(h.Suites, c13Suites[r.Intn(len(c13Suites))])
 		}
@@ -177,6 +204,8 @@ func genHello(r *Rng) helloSpec {
 		for k := r.Range(0, 5); k > 0; k-- {
 			if r.Chance(0.2) {
 				h.Curves = append(h.Curves, greaseVals[r.Intn(16)])
+			} else if r.Chance(0.1) {
+				h.Curves = append(h.Curves, nearGrease(r))
 			} else {
 				h.Curves = append(h.Curves, c13Curves[r.Intn(len(c13Curves))])
 			}
@@ -196,6 +225,8 @@ func genHello(r *Rng) helloSpec {
 		var t uint16
 		if r.Chance(0.15) {
 			t = greaseVals[r.Intn(16)]
+		} else if r.Chance(0.08) {
+			t = nearGrease(r)
 		} else {
 			t = c13Ext[r.Intn(len(c13Ext))]
 		}
